@@ -298,6 +298,9 @@ pub const CONTEXTS: &[&str] = &[
     "@Fif fun taking 0\nsay \"y\"\nelse\nsay \"n\"\n\n@T",
     "@Fput 0 into c\nwhile fun taking c is less than 2\nbuild c up\n\n@T",
     "@Fput 0 into c\nuntil fun taking c is 2\nbuild c up\n\n@T",
+    // a loop left by break or return: the guard is not evaluated again on the way out
+    "@Fput 0 into c\nwhile fun taking 1\nbuild c up\nif c is 2\nbreak\n\n\n@T",
+    "@Fgun takes k\nuntil fun taking 0\ngive back 5\n\ngive back 6\n\nsay gun taking 0\n@T",
     "if true\n@B\n@T",
     "if false\nsay \"n\"\nelse\n@B\n@T",
     "put 0 into c\nwhile c is less than 2\nbuild c up\n@B\n@T",
